@@ -61,6 +61,14 @@ CHECKS["C02"] = ("DESIGN.md C02",
     "equations of exact arithmetic; int/decimal/NULL kind matrix; `x is not P` against "
     "`not (x is P)` for every identifier of the token alphabet and a value pool of every kind.")
 
+CHECKS["C07"] = ("DESIGN.md C07",
+    "Pairs and triples of same-kind values with symbolic payloads (unbounded ints, integral "
+    "decimals up to 2^53 mixed with ints, strings of length <= 2 (thorough 3) over unconstrained "
+    "characters, symbolic booleans, dates, int lists) through <, >, ==, !=, <=, >=, compare, min, "
+    "max of the real interpreter against the defined order, with the strict-order laws as solver "
+    "obligations; sorted() on lists of <= 4 (thorough 6) [key, tag] pairs with symbolic keys "
+    "(permutation, ordered, stable; default/key/cmp); set and map-key enumeration order.")
+
 NA = {}
 
 
